@@ -26,6 +26,62 @@ IsPfx(a) == a \in DOMAIN PfxNs
 HasCanon(ns) == NsKey(ns) \in DOMAIN CanonPfx
 
 (* ------------------------------------------------------------------ *)
+(* the namespace table of a site (init_namespace_data reads            *)
+(* data/<lang>/namespaces.json; namespace_prefixes, core.py:2089-2107) *)
+(*                                                                     *)
+(* PfxNs and CanonPfx above are atom tables.  They are not free: a     *)
+(* site has ONE table of namespaces, each with an id, the canonical    *)
+(* (MediaWiki-internal, English) name that is the key of the shipped   *)
+(* file, the local name (the prefix stored titles carry) and a list of *)
+(* aliases.  The operators below derive the atom tables from such a    *)
+(* table, so that a configuration can take the table of any language   *)
+(* as its constant.  Names are atoms without the colon.  Letter case   *)
+(* is a fact about strings TLC cannot compute: `fold` maps every       *)
+(* prefix atom of the spelling universe (a name in some letter case,   *)
+(* blanks possibly written as underscores, followed by ":") to its     *)
+(* folded form; two atoms spell the same name iff they fold alike.     *)
+(* ------------------------------------------------------------------ *)
+NsEntry(id, canonical, local, aliases) ==
+  [id |-> id, canonical |-> canonical, local |-> local, aliases |-> aliases]
+NsPfxAtom(name) == name \o ":"
+NsFolded(fold, p) == IF p \in DOMAIN fold THEN fold[p] ELSE p
+NsAliasSet(e) == {e.aliases[i] : i \in 1..Len(e.aliases)}
+NsPrefixed(tab) == {e \in tab : e.id # 0}      \* the main namespace has no prefix
+
+\* the statement: the prefix may be the namespace's name, given "aliased or written in
+\* another case" -- every name the table lists for the namespace, in any letter case
+NsAllNames(e) == {e.local, e.canonical} \cup NsAliasSet(e)
+NsNamedBy(p, e, fold) ==
+  NsFolded(fold, p) \in {NsFolded(fold, NsPfxAtom(n)) : n \in NsAllNames(e)}
+
+\* the code: namespace_prefixes(id, lower=True) builds the tuple of folded prefixes that
+\* get_page tests the folded title against: local name and aliases, then the canonical name
+\* when it differs from the local one.
+\* Deviation "CanonicalNameNotFolded": the canonical name is appended as written.
+NsAcceptedFolded(e, fold, dev) ==
+  {NsFolded(fold, NsPfxAtom(n)) : n \in {e.local} \cup NsAliasSet(e)} \cup
+  (IF e.canonical = e.local THEN {}
+   ELSE IF "CanonicalNameNotFolded" \in dev THEN {NsPfxAtom(e.canonical)}
+   ELSE {NsFolded(fold, NsPfxAtom(e.canonical))})
+NsAcceptedBy(p, e, fold, dev) == NsFolded(fold, p) \in NsAcceptedFolded(e, fold, dev)
+
+\* PfxNs as the statement demands it / as the code builds it, CanonPfx (local names)
+\* (TLCEval: TLC keeps [x \in S |-> e] lazy and would re-evaluate e at every application)
+NsRefPfxNs(tab, fold) ==
+  TLCEval([p \in {q \in DOMAIN fold : \E e \in NsPrefixed(tab) : NsNamedBy(q, e, fold)} |->
+             (CHOOSE e \in NsPrefixed(tab) : NsNamedBy(p, e, fold)).id])
+NsCodePfxNs(tab, fold, dev) ==
+  TLCEval([p \in {q \in DOMAIN fold : \E e \in NsPrefixed(tab) : NsAcceptedBy(q, e, fold, dev)} |->
+             (CHOOSE e \in NsPrefixed(tab) : NsAcceptedBy(p, e, fold, dev)).id])
+NsCanonPfx(tab) ==
+  TLCEval([k \in {NsKey(e.id) : e \in NsPrefixed(tab)} |->
+             NsPfxAtom((CHOOSE e \in NsPrefixed(tab) : NsKey(e.id) = k).local)])
+\* no spelling names two namespaces, no id occurs twice (otherwise PfxNs is not a function)
+NsUnambiguous(tab, fold) ==
+  /\ \A p \in DOMAIN fold : Cardinality({e \in NsPrefixed(tab) : NsNamedBy(p, e, fold)}) <= 1
+  /\ \A e1, e2 \in tab : e1.id = e2.id => e1 = e2
+
+(* ------------------------------------------------------------------ *)
 (* rows and results                                                   *)
 (* ------------------------------------------------------------------ *)
 Row(title, ns, redirect, body, model) ==
@@ -61,18 +117,21 @@ UpperFirst(t) ==   \* t is the title after the prefix
   IF Len(t) = 0 THEN t
   ELSE [t EXCEPT ![1] = IF t[1] \in DOMAIN UpperOf THEN UpperOf[t[1]] ELSE t[1]]
 
-\* sequence of (title) candidates the SQL query tries, in order
-Candidates(title0, ns) ==
+\* sequence of (title) candidates the SQL query tries, in order; the prefix tables are
+\* parameters (pfxns: prefix atom -> namespace, canon: namespace key -> stored prefix) so that
+\* the table the code builds and the table the statement demands can be told apart
+CandidatesP(title0, ns, pfxns, canon) ==
   LET t1 == Despace(title0)
       t2 == IF StartsWith(t1, "Main:") THEN Tail(t1) ELSE t1
   IN IF Len(t2) = 0 THEN <<>>
-     ELSE IF ns = NoNs \/ ns = 0 \/ ~HasCanon(ns) THEN <<t2>>
-     ELSE LET cp == CanonPfx[NsKey(ns)]
+     ELSE IF ns = NoNs \/ ns = 0 \/ NsKey(ns) \notin DOMAIN canon THEN <<t2>>
+     ELSE LET cp == canon[NsKey(ns)]
               t3 == IF StartsWith(t2, cp) THEN t2
-                    ELSE IF IsPfx(t2[1]) /\ PfxNs[t2[1]] = ns THEN <<cp>> \o Tail(t2)
+                    ELSE IF t2[1] \in DOMAIN pfxns /\ pfxns[t2[1]] = ns THEN <<cp>> \o Tail(t2)
                     ELSE <<cp>> \o t2
               up == <<cp>> \o UpperFirst(Tail(t3))
           IN IF up = t3 THEN <<t3>> ELSE <<t3, up>>
+Candidates(title0, ns) == CandidatesP(title0, ns, PfxNs, CanonPfx)
 
 Query(S, title, ns, nr) ==
   {r \in S : /\ r.title = title
@@ -87,7 +146,8 @@ FirstHit(S, cands, i, ns, nr) ==
        ELSE FirstHit(S, cands, i + 1, ns, nr)
 
 \* what get_page returns when it goes to the database
-DbGet(S, title, ns, nr) == FirstHit(S, Candidates(title, ns), 1, ns, nr)
+DbGetP(S, title, ns, nr, pfxns, canon) == FirstHit(S, CandidatesP(title, ns, pfxns, canon), 1, ns, nr)
+DbGet(S, title, ns, nr) == DbGetP(S, title, ns, nr, PfxNs, CanonPfx)
 
 (* ------------------------------------------------------------------ *)
 (* state                                                              *)
@@ -146,23 +206,25 @@ Commit == com' = cur /\ UNCHANGED <<cur, memo>>
 (* ------------------------------------------------------------------ *)
 \* the stored title a spelling denotes under namespace ns, per the statement:
 \* prefix given / omitted / aliased / other case, underscores = spaces
-Denoted(title0, ns) ==
+DenotedP(title0, ns, pfxns, canon) ==
   LET t1 == Despace(title0)
       t2 == IF StartsWith(t1, "Main:") THEN Tail(t1) ELSE t1
-  IN IF ns = NoNs \/ ns = 0 \/ ~HasCanon(ns) \/ Len(t2) = 0 THEN t2
-     ELSE IF IsPfx(t2[1]) /\ PfxNs[t2[1]] = ns THEN <<CanonPfx[NsKey(ns)]>> \o Tail(t2)
-     ELSE <<CanonPfx[NsKey(ns)]>> \o t2
+  IN IF ns = NoNs \/ ns = 0 \/ NsKey(ns) \notin DOMAIN canon \/ Len(t2) = 0 THEN t2
+     ELSE IF t2[1] \in DOMAIN pfxns /\ pfxns[t2[1]] = ns THEN <<canon[NsKey(ns)]>> \o Tail(t2)
+     ELSE <<canon[NsKey(ns)]>> \o t2
+Denoted(title0, ns) == DenotedP(title0, ns, PfxNs, CanonPfx)
 
-RefGet(S, title0, ns, nr) ==
-  LET t == Denoted(title0, ns)
+RefGetP(S, title0, ns, nr, pfxns, canon) ==
+  LET t == DenotedP(title0, ns, pfxns, canon)
       exact == Query(S, t, ns, nr)
-      upT == IF ns = NoNs \/ ns = 0 \/ ~HasCanon(ns) \/ Len(t) = 0 THEN t
+      upT == IF ns = NoNs \/ ns = 0 \/ NsKey(ns) \notin DOMAIN canon \/ Len(t) = 0 THEN t
              ELSE <<t[1]>> \o UpperFirst(Tail(t))
       upper == Query(S, upT, ns, nr)
   IN IF Len(t) = 0 THEN NotFound
      ELSE IF exact # {} THEN Found(CHOOSE r \in exact : TRUE)
      ELSE IF upper # {} THEN Found(CHOOSE r \in upper : TRUE)
      ELSE NotFound
+RefGet(S, title0, ns, nr) == RefGetP(S, title0, ns, nr, PfxNs, CanonPfx)
 
 RefResolve(S, title0, ns) ==
   LET r1 == RefGet(S, title0, ns, FALSE) IN
